@@ -183,16 +183,15 @@ class Run:
         rec = {"property": self.pid, "obligation": o.name, "instance": o.instance, "info": o.info,
                "solver": o.result["log"], "model": o.result["model"], "seed": self.seed, "tier": self.tier}
         found = None
+        fn = None
         if o.replay is not None:
-            try:
-                found = o.replay(o.result["model"] or {}, self.seed)
-            except Exception as e:  # replay harness failure is not a violation by itself
-                rec["replay_error"] = traceback.format_exc()[-1500:]
+            fn = lambda: o.replay(o.result["model"] or {}, self.seed)
         elif replay_fn is not None:
-            try:
-                found = replay_fn(o, o.result["model"] or {}, self.seed)
-            except Exception:
-                rec["replay_error"] = traceback.format_exc()[-1500:]
+            fn = lambda: replay_fn(o, o.result["model"] or {}, self.seed)
+        if fn is not None:
+            found, err = run_forked(fn, timeout=300)
+            if err:
+                rec["replay_error"] = err  # a crash / failure of the replay harness is not a violation by itself
         rec["native_failing_input"] = found
         # known findings: an entry matches by obligation name prefix and (optional) instance predicate
         for k in self.known:
@@ -259,6 +258,52 @@ class Run:
         os.makedirs(os.path.join(VERIF, "evidence"), exist_ok=True)
         with open(os.path.join(VERIF, "evidence", f"{self.pid}.json"), "w") as f:
             json.dump(ev, f, indent=1, default=str)
+
+
+def run_forked(fn, timeout=300):
+    """Run a native replay in a forked child (native code may crash or hang): returns (result, error-or-None)."""
+    import pickle
+    import select
+    import signal
+
+    rfd, wfd = os.pipe()
+    pid = os.fork()
+    if pid == 0:
+        os.close(rfd)
+        try:
+            out = (fn(), None)
+        except BaseException:
+            out = (None, traceback.format_exc()[-1500:])
+        try:
+            with os.fdopen(wfd, "wb") as f:
+                pickle.dump(out, f)
+        finally:
+            os._exit(0)
+    os.close(wfd)
+    data = b""
+    deadline = time.time() + timeout
+    with os.fdopen(rfd, "rb") as f:
+        while time.time() < deadline:
+            r, _, _ = select.select([f], [], [], 1.0)
+            if r:
+                chunk = os.read(f.fileno(), 1 << 16)
+                if not chunk:
+                    break
+                data += chunk
+    try:
+        os.kill(pid, signal.SIGKILL)
+    except ProcessLookupError:
+        pass
+    try:
+        _, status = os.waitpid(pid, 0)
+    except ChildProcessError:
+        status = 0
+    if data:
+        try:
+            return pickle.loads(data)
+        except Exception:
+            pass
+    return None, f"replay process died or timed out (wait status {status})"
 
 
 def main(argv=None):
